@@ -46,6 +46,10 @@ pub fn run(rep: &mut Rep) {
         let body = |rep: &mut Rep, ch: &mut Chooser| {
             // the first connection is established by connect() or, in every second configuration, through authorize()
             let mut w = World::boot(WorldCfg { seed, sei: Some(interval), via_auth: Some(ci % 2 == 1), ..Default::default() });
+            // in two of three configurations every third publish has RETAIN set and carries a content type and a user
+            // property (20 to 17 000 bytes): the copy that is re-sent must be the packet that was sent, DUP aside
+            w.rich_pubs = ci % 3 != 1 && mps.is_none();
+            w.rich_phase = (ci / 3) % 3;
             let acts = run_path_nofinish(&mut w, &a, ch);
             if ch.probe {
                 return;
